@@ -257,13 +257,33 @@ type LemmaDef struct {
 	Line    int
 }
 
+type HParam struct {
+	Name string
+	Type string // SMT sort or Go type text
+}
+
+// HFuncDef is a (possibly recursive) heap-reading specification function. Calls pass the
+// current heap arrays named in Reads as extra arguments; its definition is unfolded on
+// ground instances by the VC generator (limited unfolding, no quantified axiom).
+type HFuncDef struct {
+	Name   string
+	Params []HParam
+	Ret    string
+	Reads  []string
+	Body   *Expr
+	File   string
+	Line   int
+}
+
 type SpecFile struct {
 	Contracts []*Contract
 	Macros    []*MacroDef
 	UFuncs    []*UFuncDef
+	HFuncs    []*HFuncDef
 	Axioms    []*AxiomDef
 	Sorts     []string
 	Lemmas    []*LemmaDef
+	Ghosts    []GhostVar
 }
 
 type parser struct {
@@ -295,7 +315,7 @@ func (ps *parser) expectOp(s string) error {
 
 var clauseKW = map[string]bool{"requires": true, "ensures": true, "modifies": true, "invariant": true, "decreases": true,
 	"let": true, "ghost": true, "on": true, "nopanic": true, "pure": true, "trusted": true, "inline": true, "props": true, "attr": true,
-	"func": true, "macro": true, "ufunc": true, "axiom": true, "sort": true, "lemma": true, "assume": true, "show": true}
+	"func": true, "macro": true, "ufunc": true, "axiom": true, "sort": true, "lemma": true, "assume": true, "show": true, "hfunc": true}
 
 // atClauseStart: a clause keyword at beginning of a line ends the previous expression.
 func (ps *parser) atClauseStart() bool {
@@ -420,6 +440,71 @@ func (ps *parser) parseFile() (*SpecFile, error) {
 		case "sort":
 			ps.next()
 			sf.Sorts = append(sf.Sorts, ps.next().text)
+		case "ghost":
+			ps.next()
+			name := ps.next().text
+			if err := ps.expectOp(":"); err != nil {
+				return nil, err
+			}
+			srt, err := ps.parseSort()
+			if err != nil {
+				return nil, err
+			}
+			sf.Ghosts = append(sf.Ghosts, GhostVar{Name: name, Sort: srt})
+		case "hfunc":
+			ps.next()
+			h := &HFuncDef{File: ps.file, Line: ps.peek().line}
+			h.Name = ps.next().text
+			if err := ps.expectOp("("); err != nil {
+				return nil, err
+			}
+			for !ps.isOp(")") {
+				pn := ps.next().text
+				if err := ps.expectOp(":"); err != nil {
+					return nil, err
+				}
+				var ty string
+				if ps.isOp("(") {
+					var err error
+					if ty, err = ps.parseSort(); err != nil {
+						return nil, err
+					}
+				} else {
+					te, err := ps.parseRawType()
+					if err != nil {
+						return nil, err
+					}
+					ty = te.Name
+				}
+				h.Params = append(h.Params, HParam{pn, ty})
+				if ps.isOp(",") {
+					ps.next()
+				}
+			}
+			ps.next()
+			rs, err := ps.parseSort()
+			if err != nil {
+				return nil, err
+			}
+			h.Ret = rs
+			if ps.isID("reads") {
+				ps.next()
+				for {
+					h.Reads = append(h.Reads, ps.next().text)
+					if ps.isOp(",") {
+						ps.next()
+						continue
+					}
+					break
+				}
+			}
+			if err := ps.expectOp("="); err != nil {
+				return nil, err
+			}
+			if h.Body, err = ps.parseExpr(); err != nil {
+				return nil, err
+			}
+			sf.HFuncs = append(sf.HFuncs, h)
 		case "axiom":
 			ps.next()
 			name := ps.next().text
@@ -524,8 +609,12 @@ func (ps *parser) atTopDecl() bool {
 		return false
 	}
 	switch t.text {
-	case "func", "macro", "ufunc", "axiom", "sort", "lemma", "trusted":
+	case "func", "macro", "ufunc", "axiom", "sort", "lemma", "trusted", "hfunc":
 		return true
+	case "ghost":
+		// top-level ghost declaration: "ghost name: Sort" with no initialiser, at column 0 after a blank line;
+		// inside a contract the same keyword is a clause. Top-level ones must precede the first contract.
+		return false
 	}
 	return false
 }
@@ -1069,7 +1158,7 @@ func (ps *parser) parseUn() (*Expr, error) {
 }
 
 // typeArgFuncs take a Go type as their last argument (raw text).
-var typeArgFuncs = map[string]bool{"typeis": true, "as": true, "tagof": true, "zero": true}
+var typeArgFuncs = map[string]bool{"typeis": true, "as": true, "tagof": true, "zero": true, "zeroarr": true}
 
 func (ps *parser) parseRawType() (*Expr, error) {
 	// read tokens up to the matching ')' or a top-level ','
@@ -1118,7 +1207,7 @@ func (ps *parser) parsePostfix(modItem bool) (*Expr, error) {
 			for !ps.isOp(")") {
 				var a *Expr
 				var err error
-				if typeArgFuncs[t.text] && (len(call.Args) >= 1 || t.text == "tagof" || t.text == "zero") {
+				if typeArgFuncs[t.text] && (len(call.Args) >= 1 || t.text == "tagof" || t.text == "zero" || t.text == "zeroarr") {
 					a, err = ps.parseRawType()
 				} else {
 					a, err = ps.parseExpr()
@@ -1279,4 +1368,6 @@ func mergeSpec(dst, src *SpecFile) {
 	dst.Axioms = append(dst.Axioms, src.Axioms...)
 	dst.Sorts = append(dst.Sorts, src.Sorts...)
 	dst.Lemmas = append(dst.Lemmas, src.Lemmas...)
+	dst.HFuncs = append(dst.HFuncs, src.HFuncs...)
+	dst.Ghosts = append(dst.Ghosts, src.Ghosts...)
 }
